@@ -15,17 +15,25 @@ META = dict(
          "invariants (e.g. a different tie-break between equal-work tips) is counted as benign, not reported. PreciousBlock and pruned data are not modelled here.",
     technique="TLA+ spec BlockTree + TLC exhaustive; path cover of the state graph replayed on a real node; invariants evaluated by TLC on observed states",
 )
-RELEVANT = {"ObsTipIsMostWork", "ObsNoFailedInChain", "ObsChainHasData", "ObsNoBadInChain", "ObsInvalidateOK", "ObsReconsiderOK"}
+RELEVANT = {"ObsTipIsMostWork", "ObsTipIsMostWorkTrue", "ObsNoFailedInChain", "ObsChainHasData", "ObsNoBadInChain", "ObsInvalidateOK", "ObsReconsiderOK"}
 
 
 def run(ctx):
     binary = ctx.build_adapter("blocktree")
+    only = os.environ.get("VERIF_C08_ONLY")       # development knob: run one scenario (long | tx | base)
+    if only == "long":
+        ctx.tlc("BlockTree", "BlockTree", "MC_c08_long.cfg")
+        _blocktree.replay_graph(ctx, binary, "E1_c08_long.cfg", "Obs_long.cfg", 0, RELEVANT, {"block"})
+        return ctx.finish(level="model_checking", exhaustive=True, rule="development run: long-reorg scenario only")
     ctx.tlc("BlockTree", "BlockTree", "MC_c08_3.cfg")
     if ctx.tier == "thorough":
         ctx.tlc("BlockTree", "BlockTree", "MC_c08_3i2.cfg")
         ctx.tlc("BlockTree", "BlockTree", "MC_c08_4.cfg", xmx="20g")
     per_action = _blocktree.replay_graph(ctx, binary, "E1_c08_3q.cfg" if ctx.tier == "quick" else "E1_c08_3.cfg", "Obs_3_mw0.cfg", 0, RELEVANT,
                                          {"invalidate", "reconsider", "block"})
+    # reorganisations that connect more than 32 blocks (ActivateBestChainStep works in batches of 32) with an invalid block in a later batch
+    ctx.tlc("BlockTree", "BlockTree", "MC_c08_long.cfg")
+    _blocktree.replay_graph(ctx, binary, "E1_c08_long.cfg", "Obs_long.cfg", 0, RELEVANT, {"block"})
     # the same property on histories whose blocks carry transactions (conflicting spends, in-block chains): reorgs must really
     # disconnect and reconnect transactions; the tip must be a most-work chain that is valid by UtxoChain's rules
     ubin = ctx.build_adapter("utxochain")
